@@ -491,9 +491,28 @@ class NulTruncModel(sasl.Model):
         return sasl.Model.resolve_identity(self, s)
 
 
-DEVIATIONS = [("identity-string:strtoul-base0", StrtoulModel, "an authorization identity that is not a plain decimal number was "
+class OddHexModel(sasl.Model):
+    """deviation: hex of odd length is accepted, the dangling digit becoming the high nibble of a final byte"""
+
+    def hexdecode(self, b):
+        return sasl.hexdecode(b + b"0") if len(b) % 2 else sasl.hexdecode(b)
+
+
+class AllDeviationsModel(OddHexModel, StrtoulModel):
+    def resolve_identity(self, s):
+        s = bytes(s)
+        v = c_strtoul0(s)
+        if v is not None:
+            return v, "numeric"
+        return self.users.get(s.split(b"\0")[0]), "name"
+
+
+DEVIATIONS = [("malformed-hex:odd-length-accepted", OddHexModel, "hex data with an odd number of digits was decoded (last digit taken as a "
+               "high nibble) instead of being refused"),
+              ("identity-string:strtoul-base0", StrtoulModel, "an authorization identity that is not a plain decimal number was "
                "interpreted with strtoul(base 0) (blanks / sign / 0x / octal), or a decimal one with a leading zero as octal"),
-              ("identity-string:login-name-cut-at-nul", NulTruncModel, "a user name containing a NUL byte was looked up as the part before the NUL")]
+              ("identity-string:login-name-cut-at-nul", NulTruncModel, "a user name containing a NUL byte was looked up as the part before the NUL"),
+              ("malformed-hex+identity-string:combined", AllDeviationsModel, "several of the named hex / identity-string deviations at once")]
 
 
 def tracker_for(model):
@@ -523,8 +542,9 @@ def _mismatch_key(d, obs):
         o = sasl.parse_reply(obs[1])[0].lower()
     else:
         o = obs[0]
-    kinds = sorted(set(k for k, _ in d["expected"]))
-    labs = sorted(set(l.split("(")[0] for _, l in d["expected"]))
+    core = [(k, l) for k, l in d["expected"] if not l.startswith("too-many-rejections")] or d["expected"]
+    kinds = sorted(set(k for k, _ in core))
+    labs = sorted(set(l.split("(")[0] for _, l in core))
     if d["content_problems"]:
         return "%s:reply-content:%s" % (PROP, d["content_problems"][0][0].lower()), d["content_problems"][0][1]
     return ("%s:%s-instead-of-%s:%s" % (PROP, o, "/".join(kinds).lower() or "nothing", "+".join(labs)[:90]),
@@ -588,19 +608,24 @@ def _judge(part, model, tr, stream, steps, end, wit):
             break
         if state == "DISC":
             outcome = "DISC"
-            if have_line and tr.step(lines[li][0], ("disconnect",)) is None:
-                part.count("inproc:disconnect:on-line")
-            elif tr.last_reply == "REJECTED":
-                part.count("inproc:disconnect:rejections")
-                part.count("rejection-bound:%d" % tr.n_rejected)
-                tr.labels.append("too-many-rejections:after-rejected")
-            elif fed - answered_end > MAXBUF:
+            if fed - answered_end > MAXBUF:
                 part.count("inproc:disconnect:buffer-overflow")
                 tr.labels.append("buffer-overflow")
             elif len(outhex) // 2 > MAXBUF:
                 # more than 16 KiB of replies were waiting to be written when the server gave up
                 part.count("inproc:disconnect:output-overflow")
                 tr.labels.append("output-overflow")
+            elif have_line and any(k == "DISCONNECT" and not l.startswith("too-many-rejections")
+                                   for k, l in tr.expectation_labels(lines[li][0])) and \
+                    tr.step(lines[li][0], ("disconnect",)) is None:
+                part.count("inproc:disconnect:on-line")
+            elif tr.last_reply == "REJECTED":
+                part.count("inproc:disconnect:rejections")
+                part.count("rejection-bound:%d" % tr.n_rejected)
+                tr.labels.append("too-many-rejections:after-rejected")
+            elif have_line and tr.step(lines[li][0], ("disconnect",)) is None:
+                part.count("inproc:disconnect:instead-of-rejected")
+                part.count("rejection-bound:%d" % tr.n_rejected)
             else:
                 return viol("%s:unexplained-disconnect:%s" % (PROP, "/".join(tr.phases())),
                             "server wants to disconnect; next client line %r, %d unanswered bytes buffered, last reply %s"
@@ -822,7 +847,8 @@ def _worker_inproc(args):
         ckind, ch = chunkings(rng, stream)
         batch_lines.append("C %s %s %s" % (setting_params(setting, env.home), stream.hex() or "-", ",".join(str(c) for c in ch) or "-"))
         batch_meta.append((sc, setting, items, stream, ckind, ch))
-    res = hrun.run_cases(exe, batch_lines, env={"HOME": env.home, "DBUS_TEST_HOMEDIR": env.home}, per_batch_timeout=900)
+    res = hrun.run_cases(exe, batch_lines, env={"HOME": env.home, "DBUS_TEST_HOMEDIR": env.home}, per_batch_timeout=900,
+                         max_crashes=2000)
     env.reread()
     for (sc, setting, items, stream, ckind, ch), rr in zip(batch_meta, res):
         part.evaluations += 1
@@ -893,11 +919,18 @@ def daemon_conversation(part, d, ctl, env, cfg, uid, sc, items, ckind, rng, wit)
     model = sasl.Model(mechs=mechs, cred_uid=uid, allow_anonymous=cfg["anon"], cookies=env.store, context=CTX_A,
                        owner_uid=OWNER_UID, users=USERS, unix_fd_possible=True, guid=None)
     tr = tracker_for(model)
-    c = client.Client(d.sock, uid=(None if uid == os.getuid() else uid), gid=(None if uid == os.getuid() else uid))
+    try:
+        c = client.Client(d.sock, uid=(None if uid == os.getuid() else uid), gid=(None if uid == os.getuid() else uid))
+    except OSError:
+        if _daemon_dead(d, 0.3):
+            raise DaemonDied()
+        raise
     sent = b""
     state = {"li": 0, "answered_end": 0, "outcome": "WAIT", "begin_end": None, "dead": False}
 
     def viol(key, what):
+        if _daemon_dead(d, 0.3):
+            raise DaemonDied()      # whatever was (not) observed is a consequence of the crash, which is reported as such
         part.violation(key, what, dict(wit, sent=sent[:2000].hex()))
         state["outcome"] = "VIOLATION"
 
@@ -1053,6 +1086,17 @@ def daemon_conversation(part, d, ctl, env, cfg, uid, sc, items, ckind, rng, wit)
         c.close()
 
 
+class DaemonDied(Exception):
+    pass
+
+
+def _daemon_dead(d, wait=0.3):
+    t = time.time() + wait
+    while d.alive() and time.time() < t:
+        time.sleep(0.01)
+    return not d.alive()
+
+
 def _worker_daemon(args):
     seed, shard, count, b, root = args
     rng = gen.rng_for(seed, PROP, "daemon", shard)
@@ -1064,16 +1108,38 @@ def _worker_daemon(args):
     env = Env(wdir, rng)
     cfg = DAEMON_CONFIGS[shard % len(DAEMON_CONFIGS)]
     conf = busproc.make_config("@SOCK@", auth=cfg["auth"] or (), allow_anonymous=cfg["anon"])
-    d = busproc.Daemon(b, os.path.join(wdir, "run"), conf, env={"HOME": env.home, "DBUS_TEST_HOMEDIR": env.home})
-    if not d.started():
+    mechs = None if cfg["auth"] is None else [m.encode() for m in cfg["auth"]]
+    box = {"d": None, "ctl": None, "n": 0}
+
+    def start():
+        box["n"] += 1
+        d = busproc.Daemon(b, os.path.join(wdir, "run%d" % box["n"]), conf, env={"HOME": env.home, "DBUS_TEST_HOMEDIR": env.home})
+        box["d"] = d
+        if not d.started():
+            return False
+        os.chmod(d.sock, 0o777)
+        box["ctl"] = _control(d, cfg, env)
+        return True
+
+    def finish(wit):
+        """stop the daemon; anything it printed / a crash is a keyed event carrying the script that was running"""
+        if box["ctl"] is not None:
+            box["ctl"].close()
+            box["ctl"] = None
+        d = box["d"]
+        if d is None:
+            return
         d.stop()
-        part.inconclusive.append("daemon did not start: " + d.stderr_text()[-500:])
-        return part
-    os.chmod(d.sock, 0o777)
-    ctl = None
+        for cls, site, text in d.problems():
+            part.violation("%s:%s:%s" % (PROP, cls, site), "daemon problem during SASL scripts",
+                           dict(wit or {"config": cfg}, stderr=text[-3000:]))
+        box["d"] = None
+
+    wit = None
     try:
-        ctl = _control(d, cfg, env)
-        mechs = None if cfg["auth"] is None else [m.encode() for m in cfg["auth"]]
+        if not start():
+            part.inconclusive.append("daemon did not start: " + box["d"].stderr_text()[-500:])
+            return part
         done = 0
         guard = 0
         while done < count and guard < count * 4:
@@ -1086,26 +1152,34 @@ def _worker_daemon(args):
                 # the cases the property is about, forced: claim another uid / right uid / cookie / anonymous
                 sc, items = _forced(rng, done // 5, uid)
             ckind = rng.choice(["one", "one", "random", "lines", "dribble"])
+            d = box["d"]
             wit = {"layer": "daemon", "scenario": sc, "config": cfg, "sock_uid": uid, "items": ser_items(items), "chunk_kind": ckind,
                    "script_text": b"".join(i[1] for i in items if i[0] == "raw")[:600].decode("latin1"), "config_text": d.config_text}
             part.evaluations += 1
             done += 1
+            tr = None
             try:
-                outcome, tr = daemon_conversation(part, d, ctl, env, cfg, uid, sc, items, ckind, rng, wit)
-            except (client.Closed, client.Timeout) as e:
-                part.inconclusive.append("control connection failed: %r" % (e,))
-                break
+                outcome, tr = daemon_conversation(part, d, box["ctl"], env, cfg, uid, sc, items, ckind, rng, wit)
+            except DaemonDied:
+                outcome = "DAEMON-DIED"
+            except (client.Closed, client.Timeout, OSError) as e:
+                if _daemon_dead(d):
+                    outcome = "DAEMON-DIED"
+                else:
+                    part.inconclusive.append("control connection failed: %r" % (e,))
+                    break
             env.reread()
             setting = {"mechs": cfg["auth"], "cred": "uid%d%s" % (uid, "+anon" if cfg["anon"] else "")}
             _sig_and_sample(part, "daemon", sc, setting, ckind, outcome, tr, items, shard)
-            if not d.alive():
-                break
+            if outcome == "DAEMON-DIED" or not d.alive():
+                # the death is reported (with this script as witness) by finish(); go on with a fresh daemon
+                part.count("daemon:died")
+                finish(wit)
+                if box["n"] > 40 or not start():
+                    part.inconclusive.append("daemon could not be restarted after %d deaths" % box["n"])
+                    break
     finally:
-        if ctl is not None:
-            ctl.close()
-        st, err = d.stop()
-        for cls, site, text in d.problems():
-            part.violation("%s:%s:%s" % (PROP, cls, site), "daemon problem during SASL scripts", {"stderr": text[-3000:], "config": cfg})
+        finish(wit)
     return part
 
 
